@@ -353,3 +353,28 @@ theorem reopen_keeps (d : D2) (h : Inv2 d) (k : Nat) (b : Nat) (hb : b ∈ d.rec
       refine ⟨s, ⟨hs, ?_⟩, hbs⟩
       have := h.logLe.1
       omega
+
+/-- recovery adds nothing: what can be rebuilt after a reopen (however far its replay got before the next
+crash) could be rebuilt before it -/
+theorem reopen_adds_nothing (d : D2) (k : Nat) (b : Nat) (hb : b ∈ (d.reopen false k).recover) :
+    b ∈ d.recover := by
+  unfold D2.recover at hb ⊢
+  simp only [D2.reopen, Bool.false_and, Bool.false_eq_true, if_false] at hb
+  rcases List.mem_append.mp hb with hb | hb
+  · rcases List.mem_append.mp hb with hb | hb
+    · rcases List.mem_append.mp hb with hb | hb
+      · exact List.mem_append_left _ hb
+      · apply List.mem_append_right
+        simp only [List.mem_flatMap, List.mem_filter, decide_eq_true_eq] at hb ⊢
+        obtain ⟨s, ⟨⟨hs, hge⟩, _⟩, hbs⟩ := hb
+        exact ⟨s, ⟨hs, hge⟩, hbs⟩
+    · apply List.mem_append_right
+      have hb' := List.mem_of_mem_take hb
+      simp only [List.mem_flatMap, List.mem_filter, decide_eq_true_eq] at hb' ⊢
+      obtain ⟨s, ⟨⟨hs, hge⟩, _⟩, hbs⟩ := hb'
+      exact ⟨s, ⟨hs, hge⟩, hbs⟩
+  · apply List.mem_append_right
+    simp only [List.mem_flatMap, List.mem_filter, decide_eq_true_eq] at hb ⊢
+    obtain ⟨s, ⟨hs, hge⟩, hbs⟩ := hb
+    refine ⟨s, ⟨hs, ?_⟩, hbs⟩
+    omega
